@@ -1,5 +1,6 @@
 """C19 -- sensors, battery, CPU frequency/count, cpu_stats, boot time mirror the kernel's tables."""
 import os
+import re
 
 from pv import gallina as G
 from pv.canon import B, Exc, T, Val, outcome, unB
@@ -70,6 +71,22 @@ def g_raw(x):
     return "FAbsent" if x[0] == "A" else "FError"
 
 
+_SNUM = re.compile(r"([ \t]*)([+-]?)(\d+)([ \t]*)\Z")
+
+
+def g_snum(x):
+    """signed power_supply attribute: ["P", "<blanks><sign><digits><blanks>"]"""
+    if x[0] != "P":
+        return "Absent" if x[0] == "A" else "Unreadable"
+    m = _SNUM.match(x[1])
+    sg = {"": "SgNone", "+": "SgPlus", "-": "SgMinus"}[m.group(2)]
+    return "(Present (Build_snum %s %s %s %s))" % (G.by(m.group(1)), sg, G.by(m.group(3)), G.by(m.group(4)))
+
+
+def g_salt(a):
+    return "(Build_salt %s %s)" % (g_snum(a[0]), g_snum(a[1]))
+
+
 def g_alt(a):
     return "(Build_kalt %s %s)" % (g_text(a[0]), g_text(a[1]))
 
@@ -124,8 +141,8 @@ def g_bat(b):
         return "None"
     st = b["status"]
     stt = "(Present %s)" % st[1] if st[0] == "P" else ("Absent" if st[0] == "A" else "Unreadable")
-    return "(Some (Build_kbat %s %s %s %s %s %s))" % (g_alt(b["now"]), g_alt(b["power"]), g_alt(b["full"]),
-                                                    g_text(b["tte"]), g_text(b["capacity"]), stt)
+    return "(Some (Build_kbat %s %s %s %s %s %s))" % (g_salt(b["now"]), g_salt(b["power"]), g_salt(b["full"]),
+                                                    g_snum(b["tte"]), g_text(b["capacity"]), stt)
 
 
 def coq_term(case):
@@ -235,7 +252,7 @@ def coq_struct(case, raw):
     if k in ("temps_raw", "fans_raw"):
         return {"model": sort_dict_outcome(raw[0]), "spec": None}
     if k == "battery":
-        return {"printed": raw[0], "model": raw[1], "spec": raw[2], "secs_exact": raw[3]}
+        return {"printed": raw[0], "model": raw[1], "spec": raw[2], "secs_exact": raw[3], "neg_power": raw[4]}
     if k in ("battery_raw", "cpufreq_raw", "cpucount_raw", "stat_raw"):
         return {"model": raw[0], "spec": None}
     if k == "cpucount":
@@ -247,8 +264,10 @@ def coq_struct(case, raw):
 
 # ------------------------------------------------------------------ verdicts
 def finding_key(case, coq):
-    # no known (unrepaired) finding: the six defects this check found were repaired in /repo (3a32a00, e09e22a,
-    # 60747a2, d196a16, 64999d5, 1b69de5); their inputs live in corpus/C19 and are replayed first on every run
+    """class of the known (unrepaired) finding, computed from the input"""
+    if case["kind"] == "battery" and coq.get("neg_power") is True:
+        # negative current_now / power_now used for the remaining time: negative secsleft
+        return "battery-negative-power"
     return None
 
 
